@@ -16,6 +16,7 @@ RULE = ('hypothesis: Euler angles with beta class in {exactly 0, exactly pi, gen
         ' Representation clauses are sign-exact (D^{1/2}(U)=U, D(U1U2)=D(U1)D(U2)) including exactly diagonal / anti-diagonal / minus-identity group elements; second-call clause for angular momentum operators and Clebsch-Gordan tables.'
         ' Angles given as the integer 0.')
 RULE += ' Every Clebsch-Gordan block is checked for its shape (2J+1, 2j1+1, 2j2+1), including j1=0 and j2=0.'
+RULE += ' angle_to_su2 / angle_to_so3 are also called with angle arrays that broadcast against each other (column of alpha, scalar beta, row of gamma) and compared element-wise.'
 ASSUMPTIONS = ['round trips are judged on the matrices at 1e-6 (the algorithm switches to the gimbal-lock branch below zero_eps=1e-7, so an O(1e-7) error is inherent there)',
                'SU(2) round trip is accepted up to the documented overall sign',
                'Clebsch-Gordan coefficients come from sympy inside numqi; they are judged only through orthogonality and the intertwining relation']
@@ -113,6 +114,15 @@ def run_roundtrip(ctx, case):
         a_flt[which] = np.zeros(shape, dtype=np.float64) if shape else 0.0
         f_ = g.angle_to_su2 if su2 else g.angle_to_so3
         ctx.close(f_(*a_int), f_(*a_flt), 1e-15, 'angle_to_*: an angle given as an integer 0 acts like the float 0.0')
+    if len(angles) >= 2:
+        # the three angle arguments broadcast against each other (np.broadcast_shapes in the library): alpha down a column, gamma along a row, one scalar beta
+        f_ = g.angle_to_su2 if su2 else g.angle_to_so3
+        av, gv, b0, cls0 = al.reshape(-1), ga.reshape(-1)[:3], float(be.reshape(-1)[0]), angles[0][3]
+        grid = f_(av[:, None], b0, gv[None, :])
+        ctx.require(grid.shape == (len(av), len(gv), d, d), 'angle_to_*: broadcast shape', str(grid.shape))
+        want = np.stack([np.stack([builder(float(x), b0, float(z), cls0) for z in gv]) for x in av])
+        ctx.close(grid, want, 1e-12, 'angle_to_*: angles that broadcast against each other (column alpha, scalar beta, row gamma) = element-wise')
+        ctx.label('broadcast angles')
     M = lib if case['via_lib'] else mats.reshape(shape + (d, d))
     M_in = np.array(M, copy=True)
     out = (g.su2_to_angle if su2 else g.so3_to_angle)(M_in)
